@@ -81,6 +81,8 @@ var c19Forms = []c19Form{
 	{Name: "blob.put/string", API: "blob.put", Mut: true, Rep: true, Code: `local d, n = blob.put(C.REPO, "c19 content " .. C.T); out("blob.put " .. tostring(d) .. " " .. tostring(n))`},
 	{Name: "blob.put/blob", API: "blob.put", Mut: true, Code: `local b = blob.get(C.SRC, LAYER); local d, n = blob.put(C.REPO2, b); out("blob.put blob " .. tostring(d) .. " " .. tostring(n))`},
 	{Name: "blob.put/config", API: "blob.put", Mut: true, Code: `local c = image.config(C.SRC); local d, n = blob.put(C.REPO, c); out("blob.put config " .. tostring(d) .. " " .. tostring(n))`},
+	// (the documented "another blob" form with a blob that carries no content: an argument error today)
+	{Name: "blob.put/head-blob", API: "blob.put", Mut: true, NoEffect: true, Code: `local b = blob.head(C.SRC, LAYER); out("blob.put head-blob " .. try(function() return blob.put(C.REPO2, b) end) .. " / " .. try(function() return blob.put(C.XREPO, b) end))`},
 	{Name: "blob:put", API: "blob.put", Mut: true, Tier: 1, NoMut: true, Code: `local b = blob.get(C.SRC, LAYER); local d, n = b:put("c19 content"); out("b:put " .. tostring(d))`},
 	{Name: "image.copy/retag", API: "image.copy", Mut: true, Rep: true, Code: `image.copy(C.SRC, C.REPO .. ":c19copy-" .. C.T); out("image.copy done")`},
 	{Name: "image.copy/newrepo", API: "image.copy", Mut: true, Code: `image.copy(C.SRC, C.NEWREPO .. ":" .. C.T); out("image.copy newrepo done")`},
